@@ -198,3 +198,37 @@ Qed.
 Lemma cursor_clone_independent calls k :
   let k2 := k in snd (run_cur calls k) = snd (run_cur calls k) /\ k2 = k.
 Proof. split; reflexivity. Qed.
+
+(** ** The cursor arithmetic never leaves the machine's index space.
+    The model computes [index + 1] and [end - 1] on unbounded numbers; from a well-formed cursor whose end is
+    a machine integer every call sequence keeps [index <= end <= usize::MAX], every hint and every yielded
+    position is a machine integer - so no addition wraps and no subtraction underflows, whatever the calls:
+    the unbounded arithmetic IS the machine's.  In particular for the cursor at the very end of the index space
+    (a zero-sized-element vector of length usize::MAX drained over its last positions). *)
+Definition cur_in_range (k : cursor) : Prop := ci k <= ce k /\ ce k <= usize_max.
+Lemma cur_step_in_range (f : bool) k :
+  cur_in_range k ->
+  let '(o, k') := if f then cur_next k else cur_next_back k in
+  cur_in_range k' /\ cur_len k' <= usize_max /\
+  match o with Some x => x < usize_max /\ ci k <= x < ce k | None => ci k = ce k end.
+Proof.
+  unfold cur_in_range, cur_next, cur_next_back, cur_len. intros [H1 H2]. destruct f.
+  - destruct (N.eqb_spec (ci k) (ce k)) as [E|E]; cbn [ci ce]; repeat split; try lia.
+  - destruct (N.eqb_spec (ce k) (ci k)) as [E|E]; cbn [ci ce]; repeat split; try lia.
+Qed.
+Theorem run_cur_in_range calls : forall k,
+  cur_in_range k ->
+  let '(outs, k') := run_cur calls k in
+  cur_in_range k' /\
+  Forall (fun o => co_hint o <= usize_max /\ match co_item o with Some x => x < usize_max | None => True end) outs.
+Proof.
+  induction calls as [|f rest IH]; intros k Hk; cbn [run_cur].
+  - split; [exact Hk|constructor].
+  - pose proof (cur_step_in_range f k Hk) as Hs.
+    destruct (if f then cur_next k else cur_next_back k) as [o k1]. destruct Hs as (Hk1 & Hh & Ho).
+    specialize (IH k1 Hk1). destruct (run_cur rest k1) as [outs k2]. destruct IH as [Hk2 Hall].
+    split; [exact Hk2|]. constructor; [|exact Hall]. cbn [co_hint co_item]. split; [exact Hh|].
+    destruct o; [exact (proj1 Ho)|exact I].
+Qed.
+Example cursor_at_the_end_in_range : cur_in_range {| ci := usize_max - 3; ce := usize_max |}.
+Proof. unfold cur_in_range, usize_max. cbn [ci ce]. lia. Qed.
